@@ -21,7 +21,7 @@ func prepareGenerated(r *runner, prog *MProgram, cfg genConfig, entry func(g *ha
 	bin := filepath.Join(r.scratch, "thriftgo")
 	if _, err := os.Stat(bin); err != nil {
 		cmd := exec.Command("go", "build", "-o", bin, ".")
-		cmd.Dir = "/repo"
+		cmd.Dir = repoRoot()
 		cmd.Env = r.env
 		if out, err := cmd.CombinedOutput(); err != nil {
 			return fmt.Errorf("building thriftgo from /repo failed: %v\n%s", err, out)
@@ -51,11 +51,11 @@ func prepareGenerated(r *runner, prog *MProgram, cfg genConfig, entry func(g *ha
 	if err != nil {
 		return &violationError{msg: fmt.Sprintf("thriftgo rejected the well-formed corpus (%s:%s): %v\n%s", spec, opts, err, tail(string(out), 1500))}
 	}
-	gomod := "module zzgen\n\ngo 1.20\n\nrequire (\n\tgithub.com/apache/thrift v0.13.0\n\tgithub.com/cloudwego/gopkg v0.2.0\n\tgithub.com/cloudwego/thriftgo v0.0.0\n)\n\nreplace github.com/cloudwego/thriftgo => /repo\n"
+	gomod := "module zzgen\n\ngo 1.20\n\nrequire (\n\tgithub.com/apache/thrift v0.13.0\n\tgithub.com/cloudwego/gopkg v0.2.0\n\tgithub.com/cloudwego/thriftgo v0.0.0\n)\n\nreplace github.com/cloudwego/thriftgo => " + repoRoot() + "\n"
 	if err := os.WriteFile(filepath.Join(mod, "go.mod"), []byte(gomod), 0o644); err != nil {
 		return err
 	}
-	sum, _ := os.ReadFile("/repo/go.sum")
+	sum, _ := os.ReadFile(repoRoot() + "/go.sum")
 	extra, _ := os.ReadFile("/verif/harness/gencommon/go.sum.extra")
 	os.WriteFile(filepath.Join(mod, "go.sum"), append(sum, extra...), 0o644)
 	// runtime package
@@ -119,7 +119,7 @@ func prepareStatic(r *runner, dir string, idls []string, backend, options, pkgRe
 func prepareStaticFiles(r *runner, dir string, idls []string, backend, options, pkgRel string, extra func(pkgDir string) error) error {
 	bin := filepath.Join(r.scratch, "thriftgo")
 	cmd := exec.Command("go", "build", "-o", bin, ".")
-	cmd.Dir = "/repo"
+	cmd.Dir = repoRoot()
 	cmd.Env = r.env
 	if out, err := cmd.CombinedOutput(); err != nil {
 		return fmt.Errorf("building thriftgo from /repo failed: %v\n%s", err, out)
@@ -150,9 +150,9 @@ func prepareStaticFiles(r *runner, dir string, idls []string, backend, options, 
 	if out, err := gen.CombinedOutput(); err != nil {
 		return &violationError{msg: fmt.Sprintf("thriftgo rejected the well-formed corpus (%s:%s): %v\n%s", backend, opts, err, tail(string(out), 1500))}
 	}
-	gomod := "module zzgen\n\ngo 1.20\n\nrequire (\n\tgithub.com/apache/thrift v0.13.0\n\tgithub.com/cloudwego/gopkg v0.2.0\n\tgithub.com/cloudwego/thriftgo v0.0.0\n)\n\nreplace github.com/cloudwego/thriftgo => /repo\n"
+	gomod := "module zzgen\n\ngo 1.20\n\nrequire (\n\tgithub.com/apache/thrift v0.13.0\n\tgithub.com/cloudwego/gopkg v0.2.0\n\tgithub.com/cloudwego/thriftgo v0.0.0\n)\n\nreplace github.com/cloudwego/thriftgo => " + repoRoot() + "\n"
 	os.WriteFile(filepath.Join(mod, "go.mod"), []byte(gomod), 0o644)
-	sum, _ := os.ReadFile("/repo/go.sum")
+	sum, _ := os.ReadFile(repoRoot() + "/go.sum")
 	os.WriteFile(filepath.Join(mod, "go.sum"), sum, 0o644)
 	rt := filepath.Join(mod, "internal", "zzverifrt")
 	os.MkdirAll(rt, 0o755)
